@@ -110,9 +110,26 @@ func ToGroupID(name string, tags map[string]string, dims Dimensions) GroupID {
 		if i != 0 {
 			buf.WriteRune(',')
 		}
-		buf.WriteString(d)
+		writeGroupIDPart(&buf, d)
 		buf.WriteRune('=')
-		buf.WriteString(tags[d])
+		writeGroupIDPart(&buf, tags[d])
 	}
 	return GroupID(buf.String())
+}
+
+// writeGroupIDPart writes a tag name or value of a group ID.
+// The delimiters of the ID are escaped, otherwise different tag sets would share an ID:
+// a='x,b=y' b='z' and a='x' b='y,b=z' are two groups.
+func writeGroupIDPart(buf *strings.Builder, s string) {
+	if !strings.ContainsAny(s, `,=\`) {
+		buf.WriteString(s)
+		return
+	}
+	for i := 0; i < len(s); i++ {
+		switch s[i] {
+		case ',', '=', '\\':
+			buf.WriteByte('\\')
+		}
+		buf.WriteByte(s[i])
+	}
 }
